@@ -1,4 +1,5 @@
 import HdModel.Spec.Tls
+import HdModel.Model.TlsPool
 /-! # C12 — with TLS configured, https/wss traffic is never sent in the clear
 
 Theorems about `Hd.Tls.run` for **every** case: any scheme string, any host string, any peer
@@ -157,3 +158,49 @@ example : (run { cfg := true, alpnC := [], scheme := "https", host := "example.c
 example : (run { cfg := true, alpnC := [], scheme := "https", host := "exa$mple.com", peer := .good, alpnS := [], nameValid := false }).res = .errName := by decide
 
 end Hd.Tls
+
+/-! ## The pooled client: a secure request only ever travels on a connection made for a secure scheme -/
+namespace Hd.TlsPool
+open Hd.Tls
+
+/-- the TLS decision depends on the scheme only up to ASCII case -/
+theorem schemeUsesTls_congr {a b : String} (h : eqIgnoreCase a b = true) : schemeUsesTls a = schemeUsesTls b := by
+  unfold schemeUsesTls eqIgnoreCase at *
+  have : a.toList.map Char.toLower = b.toList.map Char.toLower := by simpa using h
+  rw [this]
+
+/-- the connection a request goes out on was made for a scheme with the same key -/
+theorem send_conn (sameKey : String → String → Bool) (hrefl : ∀ s, sameKey s s = true) (cs : Conns) (scheme : String) :
+    ∃ c, (send sameKey cs scheme).1[(send sameKey cs scheme).2]? = some c ∧ sameKey c scheme = true := by
+  unfold send
+  cases h : cs.findIdx? (sameKey · scheme) with
+  | some i =>
+    simp only []
+    obtain ⟨hi, hp⟩ := List.findIdx?_eq_some_iff_getElem.mp h |>.imp (fun _ h => h.1)
+    exact ⟨cs[i], by simp [hi], hp⟩
+  | none =>
+    simp only []
+    exact ⟨scheme, by simp, hrefl scheme⟩
+
+/-- **C12 (pooled).** Whatever connections the pool already holds for the authority (any history), and
+    for any key comparison that never identifies two schemes differing by more than ASCII case – the
+    `http` crate's does not –, an https/wss request goes out on a connection that was made for an
+    https/wss request, i.e. one on which TLS was set up (`C12_never_in_clear` for the request that made
+    it); and a request with any other scheme never borrows a TLS connection's identity either. -/
+theorem C12_pooled_secure_on_tls (sameKey : String → String → Bool) (hrefl : ∀ s, sameKey s s = true)
+    (hkey : ∀ a b, sameKey a b = true → eqIgnoreCase a b = true) (cs : Conns) (scheme : String) :
+    ∃ c, (send sameKey cs scheme).1[(send sameKey cs scheme).2]? = some c ∧ wireOf c = wireOf scheme := by
+  obtain ⟨c, h1, h2⟩ := send_conn sameKey hrefl cs scheme
+  exact ⟨c, h1, by unfold wireOf; rw [schemeUsesTls_congr (hkey c scheme h2)]⟩
+
+/-- … and the key comparison has to be that fine: with one that folds `wss` onto `http` (seed C12-a3) the
+    second request of `http, wss` goes out on the cleartext connection. -/
+theorem C12_pooled_needs_scheme_in_key :
+    let fold := fun (a b : String) => (if a == "wss" then "http" else a) == (if b == "wss" then "http" else b)
+    (runSeq fold [] ["http", "wss"]).2 = [0, 0] ∧ wireOf ((runSeq fold [] ["http", "wss"]).1[0]!) = .ascii := by
+  decide
+
+example : (runSeq exact [] ["https", "ws", "wss", "ws", "wss"]) = (["https", "ws", "wss"], [0, 1, 2, 1, 2]) := by decide
+
+end Hd.TlsPool
+
